@@ -3,7 +3,7 @@ import random
 
 from vlib import docs as D
 from vlib import gt, walk
-from vlib.par import pmap
+from vlib.par import pmap, timeout_failure
 
 PROPERTY = 'C10'
 LEVEL = 'other'
@@ -119,7 +119,7 @@ def bounded(tier, seed, repo_root):
         for b in base:
             for o in gt.OPTION_COMBOS:
                 jobs.append((a, b, o))
-    res = pmap(_check, jobs, repo_root)
+    res = pmap(_check, jobs, repo_root, job_timeout=60, on_timeout=timeout_failure('C10'))
     fails = [f for fs in res for f in fs if f['class'].startswith('c10-')]
     return [{
         'name': 'C10.option-restrictions', 'bound': f"documents <= {4 if tier == 'quick' else 5} nodes over {atoms!r}, keys a/b/c "
